@@ -277,8 +277,11 @@ pub fn points() -> Vec<(Vars, Memo)> {
     vec![mk(0.7, -1.3, [0.3, 1.7], [-0.9, 0.4]), mk(2.1, 0.6, [1.9, 0.2], [0.8, -1.1]), mk(-1.3, 2.1, [-0.6, 0.9], [1.4, 2.3])]
 }
 
+/// near the branch cut of sqrt / ^ without being exactly on it: a *tiny non-zero* imaginary part is
+/// rounding noise whose sign decides the branch.  An exactly zero imaginary part is not degenerate:
+/// the library evaluates operands without negative zeros, so the axis is always approached from above.
 fn on_cut(z: C) -> bool {
-    z.re < 0.0 && z.im.abs() <= 1e-12 * (1.0 + z.norm())
+    z.re < 0.0 && z.im != 0.0 && z.im.abs() <= 1e-12 * (1.0 + z.norm())
 }
 
 /// Reference value; None when the point is degenerate for this tree (missing binding, non-finite,
